@@ -39,6 +39,9 @@ ASSUMPTIONS = ['floating-point rounding is outside the model: exact-stream input
                'the Moreau oracle compares the two proximals of the real code; that each proximal '
                'is the minimiser is property C07']
 KNOWN_EXPLAINS_DISAGREEMENT = False
+# classes for which one of the two proximals is DEFINED by proximal_convex_conj in the code
+# (L2Norm <-> ball via proximal_convex_conj_l2, Linf <-> l1-ball via x - proj_l1, the KL families)
+SELF_REFERENTIAL = {'l2', 'indl2', 'linf', 'indl1', 'kl', 'klcc', 'klce', 'klcecc'}
 
 
 # --------------------------------------------------------------------------
@@ -359,6 +362,28 @@ def check_expr(ctx, r, S, stream, lines, pend, n_pts=3, oracle_only=False):
                                           fx + ggr, xg), dict(desc, y=S.flat(gr), at_gradient=True))
                 else:
                     ctx.violation('conj-value-raises ' + key0, 'f*(grad f(x)) raised ' + st, desc)
+        # (b') attainment from the conjugate side (covers primal classes WITHOUT gradient, where
+        # an over-estimating f* would satisfy the inequality): x* = grad f*(y) must attain
+        # f(x*) + f*(y) = <x*, y>
+        if evaluable and gy is not None and math.isfinite(gy):
+            st, xs_ = safe_call(lambda: g.gradient(y))
+            if st == 'ok' and xs_ in S.space and all(math.isfinite(t) for t in S.flat(xs_)):
+                st, fxs = safe_call(lambda: float(f(xs_)))
+                if st == 'ok' and fxs == float('inf'):
+                    xs_ = xs_ * (1 - 1e-12)
+                    st, fxs = safe_call(lambda: float(f(xs_)))
+                if st == 'ok' and fxs == float('inf') and stream == 'general':
+                    ctx.hit('fy-attain-skip:indicator-at-rounded-gradient')
+                elif st == 'ok':
+                    xy2 = float(xs_.inner(y))
+                    ctx.case(('fy-attain', S.kind, classes) if xy2 != 0 else None)
+                    ctx.hit('fy-attain/' + r[0])
+                    tol = 1e-8 * max(1.0, abs(gy), abs(fxs) if math.isfinite(fxs) else 1.0, abs(xy2))
+                    if not (math.isfinite(fxs) and abs(fxs + gy - xy2) <= tol):
+                        ctx.violation('fenchel-young-attainment ' + key0,
+                                      'at x = grad f*(y): f(x) + f*(y) = {!r} but <x,y> = {!r} '
+                                      '(f* is not attained)'.format(fxs + gy, xy2),
+                                      dict(desc, x=S.flat(xs_), attain=True))
         # (c) biconjugate values
         if gg is not None and fx is not None:
             st, bx = safe_call(lambda: float(gg(x)))
@@ -391,8 +416,12 @@ def moreau(ctx, f, g, S, x, xs, sigma, desc, key0, classes, r):
     if st != 'ok':
         ctx.violation('moreau-raises ' + key0, st, desc)
         return
-    ctx.case(('moreau', S.kind, classes) if float(x.norm()) else None)
-    ctx.hit('moreau/' + r[0])
+    # pairs whose conjugate proximal the CODE itself defines through the Moreau identity
+    # (proximal_convex_conj): the comparison is code-vs-itself there and is labelled as such
+    selfref = bool(set(classes) & SELF_REFERENTIAL)
+    kind = 'moreau-selfref' if selfref else 'moreau'
+    ctx.case((kind, S.kind, classes) if float(x.norm()) else None)
+    ctx.hit(kind + '/' + r[0])
     if not (resid <= 1e-8 * max(1.0, float(x.norm()))):
         ctx.violation('moreau ' + key0,
                       '||prox_(sigma f)(x) + sigma prox_(f*/sigma)(x/sigma) - x|| = {!r} (sigma={})'
